@@ -342,11 +342,37 @@ func (mm *Mem) Memcpy(dst, src, n *smt.Term, maxN int, move bool, h *AccessHooks
 		ov = smt.BAnd(ov, smt.Ne(n, smt.Const(64, 0)))
 		onOverlap(ov)
 	}
-	// read all source bytes first (memmove semantics; for memcpy overlap is UB anyway)
+	if maxN == 0 {
+		return
+	}
+	// nothing to do when n == 0 (pointers may be invalid then)
+	if !mm.m.Branch(smt.Ne(n, smt.Const(64, 0))) {
+		return
+	}
+	st := mm.targets(src, h, what+" (src)")
+	dt := mm.targets(dst, h, what+" (dst)")
+	if len(st) == 1 && len(dt) == 1 {
+		sa, da := st[0], dt[0]
+		inS := smt.BAnd(smt.Ule(sa.Off, smt.Const(64, uint64(sa.A.Size))), smt.Ule(n, smt.Sub(smt.Const(64, uint64(sa.A.Size)), sa.Off)))
+		inD := smt.BAnd(smt.Ule(da.Off, smt.Const(64, uint64(da.A.Size))), smt.Ule(n, smt.Sub(smt.Const(64, uint64(da.A.Size)), da.Off)))
+		mm.m.Assert(inS, "mem.oob", fmt.Sprintf("%s: source range outside %s (size %d)", what, sa.A.Name, sa.A.Size), "oob")
+		mm.m.Assert(inD, "mem.oob", fmt.Sprintf("%s: destination range outside %s (size %d)", what, da.A.Name, da.A.Size), "oob")
+		srcB := make([]*smt.Term, 0, maxN)
+		for i := 0; i < maxN; i++ {
+			b := mm.peek(sa.A, smt.Add(sa.Off, smt.Const(64, uint64(i))))
+			if b == nil {
+				break
+			}
+			srcB = append(srcB, b)
+		}
+		for i, b := range srcB {
+			mm.poke(da.A, smt.Add(da.Off, smt.Const(64, uint64(i))), b, smt.Ugt(n, smt.Const(64, uint64(i))))
+		}
+		return
+	}
+	// general case: fork on the length
 	srcB := make([]*smt.Term, maxN)
 	for i := 0; i < maxN; i++ {
-		// only read bytes that are within n: fork-free by guarding with ite on a
-		// clamped address is expensive; instead branch on n > i lazily
 		if !mm.m.Branch(smt.Ugt(n, smt.Const(64, uint64(i)))) {
 			srcB = srcB[:i]
 			break
@@ -354,4 +380,38 @@ func (mm *Mem) Memcpy(dst, src, n *smt.Term, maxN int, move bool, h *AccessHooks
 		srcB[i] = mm.LoadRaw(smt.Add(src, smt.Const(64, uint64(i))), 1, h, what+" (src)")[0]
 	}
 	mm.StoreRaw(dst, srcB, h, what+" (dst)")
+}
+
+// peek reads one byte without a range assertion (nil when certainly outside).
+func (mm *Mem) peek(a *Alloc, off *smt.Term) *smt.Term {
+	if off.IsConst() {
+		if off.Uint() >= uint64(a.Size) {
+			return nil
+		}
+		return a.byteAt(int(off.Uint()))
+	}
+	cs := candidates(a, off, 1)
+	if len(cs) == 0 {
+		return nil
+	}
+	return selectTree(a, off, cs, 0)
+}
+
+// poke conditionally writes one byte without a range assertion.
+func (mm *Mem) poke(a *Alloc, off *smt.Term, b *smt.Term, g *smt.Term) {
+	if a.ReadOnly {
+		mm.m.Assert(smt.BNot(g), "mem.rostore", "store to read-only "+a.Name, "oob")
+		return
+	}
+	if off.IsConst() {
+		if off.Uint() < uint64(a.Size) {
+			o := int(off.Uint())
+			a.Bytes[o] = smt.Ite(g, b, a.byteAt(o))
+		}
+		return
+	}
+	for _, o := range candidates(a, off, 1) {
+		hit := smt.BAnd(g, smt.Eq(off, smt.Const(64, uint64(o))))
+		a.Bytes[o] = smt.Ite(hit, b, a.byteAt(o))
+	}
 }
